@@ -43,7 +43,9 @@ fn hostile_case(rng: &mut Rng, index: u64) -> AST {
         (0..12)
             .map(|_| {
                 let n = 1 + rng.below(if index % 2 == 0 { 8 } else { 24 });
-                (0..n).map(|_| HOSTILE_PIECES[rng.below(HOSTILE_PIECES.len())]).collect::<String>()
+                (0..n)
+                    .map(|_| if rng.chance(1, 6) { super::super::progs::special_char(rng).to_string() } else { HOSTILE_PIECES[rng.below(HOSTILE_PIECES.len())].to_string() })
+                    .collect::<String>()
             })
             .collect()
     } else {
@@ -329,12 +331,23 @@ fn c06_cli(rep: &mut Report, origin: &str, src: &str, ast: &AST, cfg: &Config, d
         return;
     }
     // input names: several dots, no extension, upper case, a blank, a dotted directory
-    let (in_name, in_stem): (&str, &str) = match idx % 6 {
+    // (a source file is source whatever it is called: names that carry another tool's extension too)
+    let (in_name, in_stem): (&str, &str) = match (idx.wrapping_mul(0x9E37_79B9_7F4A_7C15) >> 40) % 16 {
         0 => ("prog.v1.fml", "prog.v1"),
         1 => ("noextension", "noextension"),
         2 => ("UPPER.FML", "UPPER"),
         3 => ("with space.fml", "with space"),
         4 => ("dotted.dir/inner.prog.fml", "inner.prog"),
+        5 => ("draft.bc", "draft"),
+        6 => ("old copy.BC", "old copy"),
+        7 => ("source.json", "source"),
+        8 => ("source.yaml", "source"),
+        9 => ("source.lisp", "source"),
+        10 => ("notes.txt", "notes"),
+        11 => ("prog.fml.bak", "prog.fml"),
+        12 => (".hidden", ".hidden"),
+        13 => ("source.YML", "source"),
+        14 => ("source.sexp", "source"),
         _ => ("x.fml", "x"),
     };
     let input = d.join(in_name);
@@ -569,7 +582,20 @@ fn c06_cli(rep: &mut Report, origin: &str, src: &str, ast: &AST, cfg: &Config, d
                 p
             }
         };
-        cli::run(cli::Spec::new(&["execute", pth.to_str().unwrap()]))
+        // a third of the file runs name something that is not a regular file: /dev/stdin behind a pipe, a named
+        // pipe, /proc/self/fd/0
+        let kind = (idx.wrapping_mul(0x9E37_79B9_7F4A_7C15) >> 37) % 9;
+        let special = if kind < 3 { cli::run_input_not_a_file(kind as usize, &["execute"], &bc, &[], &d, "exec") } else { None };
+        match special {
+            Some(r) => {
+                rep.bump("c06-config-execute-path", ["/dev/stdin behind a pipe", "named pipe", "/proc/self/fd/0"][kind as usize]);
+                r
+            }
+            None => {
+                rep.bump("c06-config-execute-path", "regular file");
+                cli::run(cli::Spec::new(&["execute", pth.to_str().unwrap()]))
+            }
+        }
     } else {
         cli::run(with_stdin(cli::Spec::new(&["execute"]), &bc))
     };
